@@ -1,7 +1,118 @@
-/- Driver entry for property C17: one request payload in, one canonical response line out. -/
-import Molli.Util.Basic
-namespace Molli.Driver.C17
+/-
+Driver entry for property C17 (model: Molli.Model.Job). One request payload in, one response line out.
+Every string (names, values, contents) travels hex-encoded (UTF-8 bytes), `-` = empty.
 
-def handle (_payload : String) : String := "err:not-implemented"
+  bind <r|s> <jobattrs> <clsattrs> <ev> <ev> ...
+      attrs = <exe|->,<nprocs|->,<memory|->,<k=v&k=v|->        ev = c<i>:<attrs> | u<i>
+      → one token per `u` event:  <exe|->,<nprocs>,<memory>,<k=v&… sorted|->   (none = unknown driver)
+  run <r|s> <baseenv k=v&…|-> <envars k=v&…|-> <files name:hex&…|-> <ret none|-|name&name…> <cmd>;<cmd>;…
+      cmd = <name|->/<code>/<out|->/<err|->/<eff,eff…|->
+      eff = w:<name>:<data|->  |  c:<src>:<dst>  |  r:<name>  |  e:<var>:<dst>
+      → ran=<n> exit=<code> residue=<number of extra scratch entries> out=<none | <exitcode>|<stdouts>|<stderrs>|<files>>
+        (dicts: sorted `name:hex` joined by `&`, `-` if empty)
+-/
+import Molli.Util.Basic
+import Molli.Model.Job
+namespace Molli.Driver.C17
+open Molli.Util Molli.Model.Job
+
+def strOfHex? (s : String) : Option String := do
+  let bs ← bytesOfHex? s
+  String.fromUTF8? (ByteArray.mk bs.toArray)
+
+def hexOfStr (s : String) : String := hexTok s.toUTF8.toList
+
+def optTok? {α : Type} (f : String → Option α) (s : String) : Option (Option α) :=
+  if s == "-" then some none else (f s).map some
+
+def splitList (s : String) (sep : String) : List String := if s == "-" then [] else s.splitOn sep
+
+def parseEnv? (s : String) : Option Env :=
+  (splitList s "&").mapM fun kv => match kv.splitOn "=" with
+    | [k, v] => do pure (← strOfHex? k, ← strOfHex? v)
+    | _ => none
+
+def parseAttrs? (s : String) : Option Attrs :=
+  match s.splitOn "," with
+  | [e, n, m, env] => do
+    pure { executable := ← optTok? strOfHex? e, nprocs := ← optTok? String.toNat? n,
+           memory := ← optTok? String.toNat? m, envars := ← parseEnv? env }
+  | _ => none
+
+def parseEv? (s : String) : Option Ev :=
+  if s.startsWith "u" then (s.drop 1).toString.toNat?.map Ev.use
+  else if s.startsWith "c" then
+    match (s.drop 1).toString.splitOn ":" with
+    | [i, a] => do pure (.create (← i.toNat?) (← parseAttrs? a))
+    | _ => none
+  else none
+
+def strLt (a b : String) : Bool := a < b
+
+def showEnv (e : Env) : String :=
+  let items := (e.map fun kv => (hexOfStr kv.1, hexOfStr kv.2)).mergeSort (fun a b => !strLt b.1 a.1)
+  if items.isEmpty then "-" else "&".intercalate (items.map fun kv => kv.1 ++ "=" ++ kv.2)
+
+def showBound (b : Bound) : String :=
+  (match b.executable with | some e => hexOfStr e | none => "-") ++ s!",{b.nprocs},{b.memory}," ++ showEnv b.envars
+
+def showDict (d : List (String × Bytes)) : String :=
+  let items := (d.map fun kv => (hexOfStr kv.1, hexTok kv.2)).mergeSort (fun a b => !strLt b.1 a.1)
+  if items.isEmpty then "-" else "&".intercalate (items.map fun kv => kv.1 ++ ":" ++ kv.2)
+
+def parseVariant? : String → Option Variant
+  | "r" => some .repaired | "s" => some .asShipped | _ => none
+
+def parseEffect? (s : String) : Option Effect :=
+  match s.splitOn ":" with
+  | ["w", n, d] => do pure (.write (← strOfHex? n) (← bytesOfHex? d))
+  | ["c", a, b] => do pure (.copy (← strOfHex? a) (← strOfHex? b))
+  | ["r", n] => do pure (.remove (← strOfHex? n))
+  | ["e", v, d] => do pure (.dumpEnv (← strOfHex? v) (← strOfHex? d))
+  | _ => none
+
+def parseCmd? (s : String) : Option (Option String × Outcome) :=
+  match s.splitOn "/" with
+  | [n, c, o, e, effs] => do
+    let name ← optTok? strOfHex? n
+    let code ← c.toNat?
+    let out ← bytesOfHex? o
+    let err ← bytesOfHex? e
+    let effects ← (splitList effs ",").mapM parseEffect?
+    pure (name, { effects := effects, out := out, err := err, code := code })
+  | _ => none
+
+def parseFiles? (s : String) : Option (List (String × Bytes)) :=
+  (splitList s "&").mapM fun kv => match kv.splitOn ":" with
+    | [k, v] => do pure (← strOfHex? k, ← bytesOfHex? v)
+    | _ => none
+
+def parseRet? (s : String) : Option (Option (List String)) :=
+  if s == "none" then some none else ((splitList s "&").mapM strOfHex?).map some
+
+def handle (payload : String) : String :=
+  match words payload with
+  | "bind" :: v :: job :: cls :: evs =>
+    match parseVariant? v, parseAttrs? job, parseAttrs? cls, evs.mapM parseEv? with
+    | some v, some job, some cls, some evs =>
+      let outs := (runEvs v cls { job := job, insts := [] } evs).2
+      let uses := (evs.zip outs).filterMap fun (e, o) => match e with
+        | .use _ => some (match o with | some b => showBound b | none => "none")
+        | .create _ _ => none
+      if uses.isEmpty then "-" else " ".intercalate uses
+    | _, _, _, _ => "err:bad-request"
+  | ["run", v, base, envars, files, ret, cmds] =>
+    match parseVariant? v, parseEnv? base, parseEnv? envars, parseFiles? files, parseRet? ret,
+          (splitList cmds ";").mapM parseCmd? with
+    | some v, some base, some envars, some files, some ret, some cmds =>
+      let inp : JobInput :=
+        { jid := "j", commands := cmds.map fun c => ("", c.1), files := files, returnFiles := ret, envars := envars }
+      let r := runJob v (fun _ => "") base [] "j__td" inp (cmds.map (·.2))
+      let out := match r.output with
+        | none => "none"
+        | some o => s!"{o.exitcode}|{showDict o.stdouts}|{showDict o.stderrs}|{showDict o.files}"
+      s!"ran={r.ran.length} exit={r.exit} residue={r.scratchAfter.length} out={out}"
+    | _, _, _, _, _, _ => "err:bad-request"
+  | _ => "err:bad-request"
 
 end Molli.Driver.C17
